@@ -10,7 +10,8 @@ Ltac Zify.zify_post_hook ::= Z.div_mod_to_equations.
 
 (* ---- bitrates ---- *)
 
-Definition rate_ok (v : Z) : Prop := 0 <= v < 72057594037927936.
+(* a non-negative Go int *)
+Definition rate_ok (v : Z) : Prop := 0 <= v < 9223372036854775808.   (* 2^63 *)
 
 Lemma read_rates_roundtrip : forall vs rest off, Forall rate_ok vs ->
   read_rates (length vs) (flat_map write_leb128 vs ++ rest) off =
@@ -19,7 +20,7 @@ Proof.
   induction vs as [|v vs IH]; intros rest off Hall; cbn [length read_rates flat_map app].
   - change (zlen (@nil Z)) with 0. rewrite Z.add_0_r. reflexivity.
   - apply Forall_cons_iff in Hall as [Hv Hall]. rewrite <- app_assoc.
-    rewrite (leb128_roundtrip v (flat_map write_leb128 vs ++ rest) Hv).
+    rewrite (leb128_roundtrip_64 v (flat_map write_leb128 vs ++ rest) ltac:(unfold rate_ok in Hv; lia)).
     rewrite drop_app_exact. rewrite (IH rest (off + zlen (write_leb128 v)) Hall).
     assert (Hi : i64 v = v) by (unfold i64, rate_ok in *; rewrite Z.mod_small by lia; lia).
     rewrite Hi, zlen_app. f_equal. f_equal. lia.
